@@ -150,6 +150,9 @@ pub struct EndpointCfg {
     /// connection-id provider: length (4..=20, 0 = 16), lifetime in seconds (>= 60), handshake-CID rotation
     #[serde(default)]
     pub cid: CidCfg,
+    /// unreliable datagram extension (RFC 9221) enabled (off by default, as in the library)
+    #[serde(default)]
+    pub datagram: bool,
 }
 
 #[derive(Clone, Copy, Debug, Hash, PartialEq, Eq, Serialize, Deserialize)]
@@ -239,6 +242,17 @@ pub struct ConnScript {
     pub streams: Vec<StreamScript>,
     /// after all local work: close the connection with this application code (client side)
     pub close_code: Option<u32>,
+    /// unreliable datagrams handed to the connection (both endpoints need `datagram` enabled)
+    #[serde(default)]
+    pub datagrams: Vec<DgramStep>,
+}
+
+/// `side` hands a datagram of `len` bytes to its connection `at_us` after the connection was established there
+#[derive(Clone, Copy, Debug, Hash, PartialEq, Eq, Serialize, Deserialize)]
+pub struct DgramStep {
+    pub side: Side,
+    pub at_us: u32,
+    pub len: u16,
 }
 
 #[derive(Clone, Copy, Debug, Hash, PartialEq, Eq, Serialize, Deserialize)]
@@ -312,7 +326,7 @@ impl Default for ReaderScript {
 
 impl Default for EndpointCfg {
     fn default() -> Self {
-        EndpointCfg { limits: LimitsCfg::default(), cc: Cc::Cubic, mtu: (1228, 1228, 1500), cid: CidCfg::default() }
+        EndpointCfg { limits: LimitsCfg::default(), cc: Cc::Cubic, mtu: (1228, 1228, 1500), cid: CidCfg::default(), datagram: false }
     }
 }
 
